@@ -25,12 +25,20 @@ func (t *Target) AccessDeniedHTTP(r *http.Request) bool {
 	if err != nil {
 		log.Printf("[ERROR] failed to get host from remote header %s: %s",
 			r.RemoteAddr, err.Error())
-		return false
+		// rules exist but the peer cannot be identified: deny
+		return true
+	}
+
+	// a link-local IPv6 peer carries a zone (fe80::1%eth0) which net.ParseIP rejects
+	if i := strings.IndexByte(host, '%'); i >= 0 {
+		host = host[:i]
 	}
 
 	ip := net.ParseIP(host)
 	if ip == nil {
 		log.Printf("[WARN] failed to parse remote address %s", host)
+		// rules exist but the peer cannot be identified: deny
+		return true
 	}
 
 	// check remote source and return if denied
